@@ -391,4 +391,20 @@ def St.step (σ : St) : Input → St
 /-- `self.streams[command.event.stream_id]` (KeyError: the event is dropped) -/
 def route {α : Type} (streams : List (Nat × α)) (sid : Nat) : Option α := alookup sid streams
 
+/-- an `HttpStream` as far as routing is concerned: the stream id it was created for -/
+structure HStream where
+  id : Nat
+deriving Repr, DecidableEq
+
+/-- what happens to `HttpLayer.streams`: `make_stream` (on a RequestHeaders event, `HttpStream(ctx, stream_id)` is
+    stored under `stream_id`) and `DropStream` -/
+inductive LayerOp where
+  | make (sid : Nat)
+  | drop (sid : Nat)
+deriving Repr, DecidableEq
+
+def applyLayerOp (streams : List (Nat × HStream)) : LayerOp → List (Nat × HStream)
+  | .make sid => aset sid ⟨sid⟩ streams
+  | .drop sid => aerase sid streams
+
 end MitmVerif.C05
